@@ -7,8 +7,9 @@ class Prop(PropBase):
     ID = "C20"
     LEAN_MODULES = ["Tpp.Props.C20", "Tpp.Lemmas.TablesTie"]
     REQUIRED = ["Tpp.Props.C20." + n for n in (
-        "C20_partial", "C20_counterexample", "C20_counterexample_stream", "C20_large_parameter_names_no_key", "C20_colliding_set")] + \
-               ["Tpp." + n for n in ("modifierTable_is_source", "cursorTable_is_source", "ss3Table_is_source", "keypadTable_is_source")]
+        "C20_partial", "C20_counterexample", "C20_counterexample_stream", "C20_large_parameter_names_no_key", "C20_colliding_set",
+        "C20_faithful", "C20_faithful_ctrl")] + \
+               ["Tpp." + n for n in ("faithful_feed", "faithful_rawTokens", "modifierTable_is_source", "cursorTable_is_source", "ss3Table_is_source", "keypadTable_is_source")]
     RULE = ("exhaustive: all 256 single bytes delivered to an idle decoder, to a decoder that has just seen CR and to one "
             "that has just seen LF (oracle: an ordinary unswallowed byte must come out as the non-abstract key of that "
             "value); every (canonical prefix, byte, suffix) transition and the whole key space of C05 with the stream "
